@@ -108,7 +108,8 @@ def run(rep, tier, seed):
     scripts = []; metas = []
     for i in range(n):
         # the first two volumes of every run: exactly maximal FAT12 / FAT16 volumes with a chain through the highest cluster number
-        b = imgbuilder.Builder(rng, force_top={0: 12, 1: 16}.get(i)).build()
+        # the third and fourth: FAT32 volumes whose information sector stores a free count smaller than reality (0 / 2)
+        b = imgbuilder.Builder(rng, force_top={0: 12, 1: 16}.get(i), stale_count={2: 0, 3: 2}.get(i)).build()
         path = os.path.join(cache, "img%d.txt" % i)
         open(path, "w").write(b.sparse_text())
         key = "fat%d bps%d spc%d fats%d %s" % (b.bits, b.bps, b.spc, b.fats, "mirror" if b.mirror else "active%d" % b.active)
@@ -159,8 +160,9 @@ def run(rep, tier, seed):
         if not check_traversal(rep, b, ops[nhead:nhead + nt1], e1, jd.script[:nhead + nt1], label):
             continue
         st = ops[nhead + nt1]
-        if st.kind == "ok" and int(st.payload.split()[2]) != b.free_count and (b.bits != 32 or True):
-            rep.violation("[C08 %s] stats reports %s free clusters, the builder left %d free" % (label, st.payload.split()[2], b.free_count),
+        want_free = b.free_count if b.stale_count is None else min(b.stale_count, b.free_count)      # a stored count is taken as it is
+        if st.kind == "ok" and int(st.payload.split()[2]) != want_free:
+            rep.violation("[C08 %s] stats reports %s free clusters, the builder left %d free" % (label, st.payload.split()[2], want_free),
                           {"script": jd.script[:nhead + nt1 + 1]}); continue
         m0 = nhead + nt1 + 1
         mops = ops[m0:m0 + nmut + 2]
